@@ -26,7 +26,7 @@ func runC07(p *Prog, l *Ledger) {
 	l.NotCovered = []string{"the recovery half: saturated drop-free samples raise the estimate to within one of its ceiling within a bounded number of samples (numeric trajectories)"}
 	l.Assume("valid configuration and inductive hypothesis as in C04")
 	l.Rule("O3", "what the gate argument takes as given is established by the code (decided by the C04/O1 rule on the same tree): every stored estimate stays within [max(1,minLimit), maxLimit], so a reset to the floor (probe) never lifts an estimate that had sunk below it")
-	importObligations(p, l, "C04", "O3", func(o *Obligation) bool { return o.Rule == "O1" })
+	importObligations(p, l, "C04", "O3", func(o *Obligation) bool { return o.Rule == "O1" || o.Rule == "O2" })
 	l.Rule("O5", "a saturated drop-free sample moves the estimate, or the path has bounded one measured quantity from below and from above (the band in which the algorithm holds the estimate)")
 	l.Rule("O6", "probing (decided by the C15/O4 rule on the same tree): a probe resets the estimate to its floor, so probes fire one period apart and not at all when disabled")
 	importObligations(p, l, "C15", "O6", func(o *Obligation) bool { return o.Rule == "O4" })
